@@ -34,10 +34,10 @@ package provider
 //@   loop 2 invariant range: -1 <= $ri && $ri < len(acs)
 //@   loop 2 invariant nodefault: forall j :: 0 <= j && j <= $ri ==> !xsTrue(acs[j].IsDefault)
 //@   loop 3 invariant range: -1 <= $ri && $ri < len(acs)
-//@   loop 3 invariant found: #indexFound <==> $ri >= 0
-//@   loop 3 invariant unset: !#indexFound ==> #acsUrl == "" && #protocolBinding == ""
-//@   loop 3 invariant best: #indexFound ==> exists k :: 0 <= k && k <= $ri && #acsUrl == acs[k].Location && #protocolBinding == acs[k].Binding &&
-//@             #index == atoi(acs[k].Index) && (forall j :: 0 <= j && j <= $ri ==> #index <= atoi(acs[j].Index))
+//@   loop 3 invariant found: #indexFound~bool0 <==> $ri >= 0
+//@   loop 3 invariant unset: !#indexFound~bool0 ==> #acsUrl~str0 == "" && #protocolBinding~str1 == ""
+//@   loop 3 invariant best: #indexFound~bool0 ==> exists k :: 0 <= k && k <= $ri && #acsUrl~str0 == acs[k].Location && #protocolBinding~str1 == acs[k].Binding &&
+//@             #index~int0 == atoi(acs[k].Index) && (forall j :: 0 <= j && j <= $ri ==> #index~int0 <= atoi(acs[j].Index))
 //@
 //@ ## ---- C19: issuer validation and derivation (context.go) ----
 //@ pure validIssuer(s, insecure) = s != "" && urlParseOK(s) && urlHost(s) != "" &&
@@ -343,15 +343,15 @@ package provider
 //@   ensures C12.every-attribute-matching-a-requested-one: len(queriedAttrs) > 0 ==>
 //@             allMatching(result.Assertion.AttributeStatement[0].Attribute, #attrsSaml, queriedAttrs, len(#attrsSaml) - 1)
 //@   canary C12.canary-filter-drops-everything: len(result.Assertion.AttributeStatement[0].Attribute) == 0
-//@   loop 1 invariant C12.copied-so-far: len(#providedAttrs) == $ri + 1 && (forall i :: 0 <= i && i <= $ri ==> #providedAttrs[i] == #attrsSaml[i])
-//@   loop 2 invariant C12.outer-subset: subsetOfA(#providedAttrs, #attrsSaml, $ri)
-//@   loop 2 invariant C12.outer-each-matches: eachMatches(#providedAttrs, queriedAttrs)
-//@   loop 2 invariant C12.outer-every-matching: allMatching(#providedAttrs, #attrsSaml, queriedAttrs, $ri)
+//@   loop 1 invariant C12.copied-so-far: len(#providedAttrs~slice0) == $ri + 1 && (forall i :: 0 <= i && i <= $ri ==> #providedAttrs~slice0[i] == #attrsSaml[i])
+//@   loop 2 invariant C12.outer-subset: subsetOfA(#providedAttrs~slice0, #attrsSaml, $ri)
+//@   loop 2 invariant C12.outer-each-matches: eachMatches(#providedAttrs~slice0, queriedAttrs)
+//@   loop 2 invariant C12.outer-every-matching: allMatching(#providedAttrs~slice0, #attrsSaml, queriedAttrs, $ri)
 //@   loop 3 invariant C12.inner-range: -1 <= $ri2 && $ri2 + 1 < len(#attrsSaml)
-//@   loop 3 invariant C12.inner-subset: subsetOfA(#providedAttrs, #attrsSaml, $ri2 + 1)
-//@   loop 3 invariant C12.inner-each-matches: eachMatches(#providedAttrs, queriedAttrs)
-//@   loop 3 invariant C12.inner-every-matching-before: allMatching(#providedAttrs, #attrsSaml, queriedAttrs, $ri2)
-//@   loop 3 invariant C12.inner-every-matching-current: forall k :: 0 <= k && k <= $ri && attrMatch(#attrsSaml[$ri2 + 1], queriedAttrs[k]) ==> inP(#providedAttrs, #attrsSaml[$ri2 + 1])
+//@   loop 3 invariant C12.inner-subset: subsetOfA(#providedAttrs~slice0, #attrsSaml, $ri2 + 1)
+//@   loop 3 invariant C12.inner-each-matches: eachMatches(#providedAttrs~slice0, queriedAttrs)
+//@   loop 3 invariant C12.inner-every-matching-before: allMatching(#providedAttrs~slice0, #attrsSaml, queriedAttrs, $ri2)
+//@   loop 3 invariant C12.inner-every-matching-current: forall k :: 0 <= k && k <= $ri && attrMatch(#attrsSaml[$ri2 + 1], queriedAttrs[k]) ==> inP(#providedAttrs~slice0, #attrsSaml[$ri2 + 1])
 //@   enter mqCalls = mqCalls + 1
 //@   enter mqReqID = requestID
 //@   enter mqIssuer = issuer
@@ -420,17 +420,17 @@ package provider
 //@   ensures C03,C12.every-custom-attribute-exactly-once-with-its-own-values: isIterOrder($mtok, a.customAttributes) &&
 //@             len(result) == nStd(a) + iterlen($mtok) && customSuffix(result, a, $mtok, iterlen($mtok))
 //@   canary C03.canary-no-custom-attributes: len(result) == nStd(a)
-//@   loop 1 invariant elements-non-nil: len(#attrs) >= 0 && (forall i :: 0 <= i && i < len(#attrs) ==> #attrs[i] != nil)
-//@   loop 1 invariant C15.elements-new-so-far: forall i :: 0 <= i && i < len(#attrs) ==> fresh(#attrs[i])
-//@   loop 1 invariant C03,C12.std-email-kept: a.email != "" ==> basicAttr(#attrs[0], "Email", a.email)
-//@   loop 1 invariant C03,C12.std-surname-kept: a.surname != "" ==> basicAttr(#attrs[nEmail(a)], "SurName", a.surname)
-//@   loop 1 invariant C03,C12.std-givenname-kept: a.givenName != "" ==> basicAttr(#attrs[nSur(a)], "FirstName", a.givenName)
-//@   loop 1 invariant C03,C12.std-fullname-kept: a.fullName != "" ==> basicAttr(#attrs[nGiven(a)], "FullName", a.fullName)
-//@   loop 1 invariant C03,C12.std-username-kept: a.username != "" ==> basicAttr(#attrs[nFull(a)], "UserName", a.username)
-//@   loop 1 invariant C03,C12.std-userid-kept: a.userID != "" ==> basicAttr(#attrs[nUser(a)], "UserID", a.userID)
-//@   loop 1 invariant C03,C12.count-so-far: len(#attrs) == nStd(a) + $mi + 1
+//@   loop 1 invariant elements-non-nil: len(#attrs~slice0) >= 0 && (forall i :: 0 <= i && i < len(#attrs~slice0) ==> #attrs~slice0[i] != nil)
+//@   loop 1 invariant C15.elements-new-so-far: forall i :: 0 <= i && i < len(#attrs~slice0) ==> fresh(#attrs~slice0[i])
+//@   loop 1 invariant C03,C12.std-email-kept: a.email != "" ==> basicAttr(#attrs~slice0[0], "Email", a.email)
+//@   loop 1 invariant C03,C12.std-surname-kept: a.surname != "" ==> basicAttr(#attrs~slice0[nEmail(a)], "SurName", a.surname)
+//@   loop 1 invariant C03,C12.std-givenname-kept: a.givenName != "" ==> basicAttr(#attrs~slice0[nSur(a)], "FirstName", a.givenName)
+//@   loop 1 invariant C03,C12.std-fullname-kept: a.fullName != "" ==> basicAttr(#attrs~slice0[nGiven(a)], "FullName", a.fullName)
+//@   loop 1 invariant C03,C12.std-username-kept: a.username != "" ==> basicAttr(#attrs~slice0[nFull(a)], "UserName", a.username)
+//@   loop 1 invariant C03,C12.std-userid-kept: a.userID != "" ==> basicAttr(#attrs~slice0[nUser(a)], "UserID", a.userID)
+//@   loop 1 invariant C03,C12.count-so-far: len(#attrs~slice0) == nStd(a) + $mi + 1
 //@   loop 1 invariant C03,C12.one-entry-per-key-so-far: forall j :: 0 <= j && j <= $mi ==>
-//@             customAttr(#attrs[len(#attrs) - 1 - $mi + j], lookup(a.customAttributes, mapkeyat($mtok, j)), mapkeyat($mtok, j))
+//@             customAttr(#attrs~slice0[len(#attrs~slice0) - 1 - $mi + j], lookup(a.customAttributes, mapkeyat($mtok, j)), mapkeyat($mtok, j))
 //@
 //@ ## C15/C03: an ID is "_" followed by the text of exactly one freshly drawn uuid (whose uniqueness across calls and goroutines is the
 //@ ## library's guarantee, A-MISC on uuid.New); "_" makes it a legal xs:ID start. Callers use this contract.
